@@ -121,6 +121,23 @@ func (c *cancelWriter) Write(p []byte) (int, error) {
 	return c.ResponseRecorder.Write(p)
 }
 
+// pollCtx is a context that turns out cancelled at the after-th look at it.
+type pollCtx struct {
+	context.Context
+	polls  atomic.Int32
+	after  int32
+	cancel context.CancelFunc
+}
+
+func (c *pollCtx) look() {
+	if c.polls.Add(1) >= c.after {
+		c.cancel()
+	}
+}
+
+func (c *pollCtx) Done() <-chan struct{} { c.look(); return c.Context.Done() }
+func (c *pollCtx) Err() error            { c.look(); return c.Context.Err() }
+
 func parkedEmitters() (int, string) {
 	buf := make([]byte, 4<<20)
 	buf = buf[:runtime.Stack(buf, true)]
@@ -188,7 +205,7 @@ func judge(r *ev.Run, f fault, st *metrics.Store, ms []*metrics.Metric) bool {
 func TestC12(t *testing.T) {
 	r := ev.Start(t, "C12", "fault_enumeration")
 	defer r.Finish()
-	r.Rule("fault grid: stores of M<=3 metrics x L<=3 label sets (thorough: also 4x4); for Prometheus (Write and /metrics handler) an unrepresentable item of each kind {invalid metric name, key named prog, invalid key name, non-UTF-8 label value} at every (metric, label set); for graphite/statsd/collectd a writer failing at the k-th write for every k up to the number of writes, plus real tcp/unix/udp peers that close early; for /varz /graphite /json a request context cancelled before the first metric and at every k-th response write, with and without a failing ResponseWriter. After each attempt: TryLock on every metric, no goroutine parked in EmitLabelSets, a write-locking update and another export complete. Non-trivial: every fault point (all inject a failure); distinct by fault tuple.")
+	r.Rule("fault grid: stores of M<=3 metrics x L<=3 label sets (thorough: also 4x4); for Prometheus (Write and /metrics handler) an unrepresentable item of each kind {invalid metric name, key named prog, invalid key name, non-UTF-8 label value} at every (metric, label set); for graphite/statsd/collectd a writer failing at the k-th write for every k up to the number of writes, plus real tcp/unix/udp peers that close early; for /varz /graphite /json a request context cancelled before the first metric, at every k-th response write (with and without a failing ResponseWriter) and at every k-th look the handler takes at the context. After each attempt: TryLock on every metric, no goroutine parked in EmitLabelSets, a write-locking update and another export complete. Non-trivial: every fault point (all inject a failure); distinct by fault tuple.")
 	r.Assume("a goroutine still parked in EmitLabelSets after 1s of polling has no receiver left (its channel is local to the returned export call)")
 	maxML := ev.Pick(3, 4)
 	mkExp := func(st *metrics.Store) *exporter.Exporter {
@@ -301,6 +318,27 @@ func TestC12(t *testing.T) {
 						if !ok && r.Violations() > 6 {
 							return
 						}
+					}
+				}
+				// the client is gone by the k-th time the handler looks at the
+				// request context (independent of when the handler writes)
+				st2, _ := buildStore(M, L, nil)
+				e2 := mkExp(st2)
+				pc := &pollCtx{Context: context.Background(), after: 1 << 30, cancel: func() {}}
+				serve(e2, h, httptest.NewRecorder(), httptest.NewRequest("GET", "/"+h, nil).WithContext(pc))
+				e2.Stop()
+				for k := 1; k <= int(pc.polls.Load())+1; k++ {
+					f := fault{Exporter: "http-" + h, Kind: "cancel-at-context-poll-k", K: k, M: M, L: L}
+					st, ms := buildStore(M, L, nil)
+					ok := run(f, st, ms, func() {
+						e := mkExp(st)
+						ctx, cancel := context.WithCancel(context.Background())
+						serve(e, h, httptest.NewRecorder(), httptest.NewRequest("GET", "/"+h, nil).WithContext(&pollCtx{Context: ctx, after: int32(k), cancel: cancel}))
+						cancel()
+						e.Stop()
+					})
+					if !ok && r.Violations() > 6 {
+						return
 					}
 				}
 			}
